@@ -12,7 +12,7 @@ import ledger_mutators as M
 import vlib
 
 PROP = "C09"
-SEQ = "no" == "yes"
+SEQ = True
 
 
 def run(c):
